@@ -1,0 +1,13 @@
+//go:build verif
+
+package fileops
+
+// SetLocalFSForVerif replaces the VFS used for local paths and returns the previous one.
+// It exists only in builds with the "verif" tag: the verification harness wraps the local
+// file system with a recorder that observes every mutation (create, write, sync, rename,
+// remove) and can freeze a crash image between two of them.
+func SetLocalFSForVerif(v VFS) VFS {
+	old := localFS
+	localFS = v
+	return old
+}
